@@ -1,5 +1,6 @@
 """C10 - the memory cache is transparent, computes each example once, and freezes it."""
 import json
+import common
 import random
 import warnings
 
@@ -27,6 +28,7 @@ def install_psutil(state):
 
 def run_history(n, ops, keyed=False):
     """execute a history on the real CacheDataset; returns outputs, upstream call counts"""
+    common.gc_point()
     state = {'mem': True, 'asked': 0}
     install_psutil(state)
     counts = [0] * n
@@ -114,6 +116,7 @@ def gen_history(rng, n, length, p_false):
 
 def real_paths(rng):
     """accesses through iteration, slices, keys, copies and thread prefetch while memory permits"""
+    common.gc_point()
     fails = []
     state = {'mem': True, 'asked': 0}
     install_psutil(state)
@@ -172,6 +175,7 @@ def real_paths(rng):
 
 def eager_snapshot(rng):
     """cache(lazy=False) snapshots content and order at call time"""
+    common.gc_point()
     fails = []
     n = rng.randint(0, 6)
     epoch = {'e': 0}
